@@ -88,6 +88,9 @@ def Blk.fees (b : Blk) : Nat := (b.kers.map Ker.fee).foldl (· + ·) 0
 /-- the block spends an output it creates itself (`verify_cut_through`) -/
 def cutThroughViolation (b : Blk) : Bool := b.ins.any (fun i => b.outs.any (·.1 == i))
 
+/-- an input or output commitment occurs twice inside the block (`verify_sorted_and_unique`) -/
+def dupInBody (b : Blk) : Bool := !(decide b.ins.Nodup) || !(decide (b.outs.map (·.1)).Nodup)
+
 /-- a height-locked kernel whose lock height is above the block height -/
 def lockViolation (b : Blk) : Bool :=
   b.kers.any fun k => match k with
@@ -114,7 +117,8 @@ def validateBody (p : Params) (outs : List OutDef) (b : Blk) (insVals : Nat) : O
   match hasTag b "body:" with
   | some e => some e
   | none =>
-  if cutThroughViolation b then some "Block:Transaction:CutThrough"
+  if dupInBody b then some "Block:Transaction:Serialization"
+  else if cutThroughViolation b then some "Block:Transaction:CutThrough"
   else if lockViolation b then some "Block:KernelLockHeight"
   else if nrdEraViolation b then some "Block:NRDKernelPreHF3"
   else if coinbaseMismatch p outs b then some "Block:CoinbaseSumMismatch"
